@@ -291,6 +291,11 @@ def run(chk):
         chk.sample({"op": e["op"], "argbuf": e["argbuf"], "buffers": len(e["pre"]), "raised": e["raised"]})
     chk.notes["events_by_operation"] = opcount
     chk.notes["raised_events"] = sum(1 for e in events if e["raised"])
+    # the repository's own tests, executed under the external tracer: every public call they make
+    import suite
+    ev = suite.trace_suite(chk)
+    if ev:
+        chk.notes["suite_events_validated"] = suite.validate_frame(chk, ev)
     # every generated Pipeline behaviour is also a C14 case (snapshots before/after each call)
     c01.run_pipeline(chk, want=("C14",), mc=None, quick_cases=500, full_cases=20000, nconc=(2, 6))
     chk.assumptions += ["buffer identity = ultimate .base ndarray; hashes are blake2b of the bytes",
@@ -301,6 +306,9 @@ def replay(doc):
     c = doc["case"]
     if c.get("kind") == "pipeline":
         return c01.replay(doc)
+    if c.get("kind") == "suite":
+        print("re-run the traced test: %s (api %s)" % (c["test"], c["api"]))
+        return 1
     rnd = random.Random(c["seed"])
     if "direct" in c["case"]:
         evs = [e for e in arg_events(rnd, 0) if e["case"] == c["case"]]
